@@ -39,7 +39,8 @@ LAYOUTS = ['d2', 's1d2', 'd1M1d2', 'd3', 'd4', 's1d3', 'd5']
 SCEN = ['first_eval', 'queue_entry', 'queue_merge', 'second_entry',
         'two_merge', 'source_moved', 'decline', 'reset', 'rebuild',
         'delete_queues', 'force_merge', 'create_branch', 'create_stab',
-        'delete_branch', 'conflict_later', 'delete_branch_with_queue']
+        'delete_branch', 'conflict_later', 'delete_branch_with_queue',
+        'two_merge_narrow_first']
 
 
 def combos(seed):
@@ -49,6 +50,7 @@ def combos(seed):
             for qm in ('queue', 'noqueue', 'skipqueue'):
                 if qm == 'noqueue' and sc in (
                         'queue_merge', 'second_entry', 'two_merge', 'rebuild',
+                        'two_merge_narrow_first',
                         'delete_queues', 'force_merge', 'create_branch'):
                     continue
                 for child_prs in (False, True):
@@ -75,7 +77,11 @@ def combos(seed):
                 first.append((sc, layout, qm, rng.random() < 0.5,
                               rng.choice([(), ('no_octopus',)])))
     rng.shuffle(first)
-    return first[:16] + [c for c in rest if c not in first[:16]]
+    # a batch whose first pull request has the narrower target set: always
+    must = [('two_merge_narrow_first', 'd3', 'queue', False, ()),
+            ('two_merge_narrow_first', 'd4', 'queue', True, ())]
+    head = must + first[:14]
+    return head + [c for c in rest if c not in head]
 
 
 def plan(tier, seed):
